@@ -25,6 +25,11 @@ Theorem C09_prior_is_distribution_partial : forall cutoff n ks,
   Forall (fun x => 0 < x) (n_probs n) /\ sumq (n_probs n) == 1 /\
   length (n_probs n) = length ks.
 Proof. exact prior_is_distribution. Qed.
+(* the multiplier clause "C*sqrt(N)/(N+K)" itself is compared BIT FOR BIT by the
+   correspondence (harness/props/c09.py): the binary64 value policy_probs
+   computes and the binary32 value the native solver receives against
+   model/LambdaF64.v (lambda_agrees), for every solver call; in exact
+   arithmetic only lambda^2 is available: *)
 (* the multiplier is positive at every expanded node: such a node has been
    visited, and lambda^2 = C^2 N/(N+K)^2 > 0 for N >= 1 (the square root itself is C10's) *)
 Theorem C09_expanded_is_visited_partial : forall cutoff n ks,
